@@ -42,6 +42,7 @@ def cases(tier, seed, flavour):
         for i in range(0, 70, 5):
             yield {'part': 'lapack-large', 'lo': i, 'hi': i + 5}
     yield {'part': 'buffer-import'}
+    yield {'part': 'sparse-resize'}
     # every lapack wrapper with small offsets / leading dimensions / orders on exactly sized operands
     for i in range(0, 70, 5):
         yield {'part': 'lapack-small', 'lo': i, 'hi': i + 5}
@@ -362,12 +363,19 @@ def _lapack_sig(fn):
     lines = [l for l in doc.split('\n')]
     sig = ''
     for i, l in enumerate(lines):
-        if l.strip().startswith(fn.__name__ + '('):
+        # the signature line: '<name>(' possibly preceded by 'result = ' (some docstrings name the LAPACK routine or a
+        # sibling instead of the wrapper: dgesv(, herv(, syevr( for heevr, ...)
+        ms = re.match(r'^(?:[\w, ]+=\s*)?(\w+)\((?=[A-Za-z])', l.strip())
+        if ms and i > 0 and (ms.group(1) == fn.__name__ or not lines[i - 1].strip()):
             sig = l.strip()
+            sig = sig[sig.index(ms.group(1) + '('):]
             j = i + 1
-            while sig.count('(') != sig.count(')') and j < len(lines):
+            while sig.count('(') != sig.count(')') and j < len(lines) and lines[j].strip():
                 sig += ' ' + lines[j].strip()
                 j += 1
+            if sig.count('(') > sig.count(')'):       # a docstring with an unbalanced signature (ptsv, pttrs)
+                sig = re.sub(r'(max\(1,\s*\w+\.size\[0\]),', r'\1),', sig)
+                sig += ')' * (sig.count('(') - sig.count(')'))
             break
     m = _SIGRE.match(sig)
     if not m:
@@ -740,8 +748,46 @@ def run_buffer_import(case):
     return {'n': n, 'nontrivial': n, 'viol': viol[:4], 'outcomes': {'buffer-imports': n}}
 
 
+def run_sparse_resize(case):
+    """A.size = (r, c) on sparse matrices for every factorisation r*c of the number of entries and every pattern of a
+    small family, in chains (the column pointer array is re-allocated for the new column count): the column-major
+    sequence of entries is unchanged and the compressed-column arrays stay valid."""
+    from cvxopt import spmatrix, matrix
+    viol = []
+    n = 0
+    for total in (1, 2, 4, 6, 8):
+        shapes = [(r, total // r) for r in range(1, total + 1) if total % r == 0]
+        for mask in sorted(set([0, 1, 2 ** total - 1, (2 ** total - 1) // 3, 2 ** (total - 1), 5 % (2 ** total)])):
+            cells = [p for p in range(total) if mask >> p & 1]
+            for (m0, n0) in shapes:
+                A = spmatrix([1.0 + p for p in cells], [p % m0 for p in cells], [p // m0 for p in cells], (m0, n0))
+                flat0 = list(matrix(A))
+                for (m1, n1) in shapes + shapes[::-1]:
+                    n += 1
+                    try:
+                        A.size = (m1, n1)
+                    except Exception as e:
+                        viol.append({'key': 'C19:sparse-resize:exception:' + type(e).__name__, 'msg': 'A.size = %r raised %r' % ((m1, n1), e)})
+                        break
+                    cp, ri = list(A.CCS[0]), list(A.CCS[1])
+                    ok = (A.size == (m1, n1) and len(cp) == n1 + 1 and cp[0] == 0 and cp[-1] == len(ri) == len(cells)
+                          and all(a <= b for a, b in zip(cp, cp[1:]))
+                          and all(0 <= ri[k] < m1 for k in range(len(ri)))
+                          and all(ri[k] < ri[k + 1] for j in range(n1) for k in range(cp[j], cp[j + 1] - 1)))
+                    if not ok or list(matrix(A)) != flat0:
+                        viol.append({'key': 'C19:sparse-resize:structure-or-values', 'msg': 'after A.size = %r (from %r): size %r colptr %r rowind %r '
+                                     'entries %r, expected the column-major entries %r' % ((m1, n1), (m0, n0), A.size, cp, ri, list(matrix(A)), flat0),
+                                     'sub': {'from': [m0, n0], 'to': [m1, n1], 'cells': cells}})
+                        break
+                if len(viol) > 3:
+                    return {'n': n, 'nontrivial': n, 'viol': viol, 'outcomes': {'resizes': n}}
+    return {'n': n, 'nontrivial': n, 'viol': viol, 'outcomes': {'resizes': n}}
+
+
 def run(case):
     p = case['part']
+    if p == 'sparse-resize':
+        return run_sparse_resize(case)
     if p == 'buffer-import':
         return run_buffer_import(case)
     if p == 'lapack-small':
